@@ -60,4 +60,11 @@ func init() {
 		Real:        append([]string{"repl.evaluator.evaluate (through a generated export file in the scratch copy)", "incremental Checker.CheckSource with snapshot/restore", "vm.InterpretREPL on a persistent stack"}, realAll...),
 		Stub:        append([]string{"terminal input (go-prompt) and SIGINT", "os.Stdout / os.Stderr (redirected to a scratch file for the session)"}, stubAll...),
 	}
+	engineTable["C10"] = engineInfo{
+		Engine:      "C10",
+		Rule:        "case = deterministic program composed of 2-5 fragments (recursion to depth 5-900 with a closure per live frame called after the deeper calls return; generators suspended across recursive calls and resumed at another depth; closures appending to a shared list before and after deeper calls; async fib-style DAG awaited by main; list literals of 10-900 elements; bulk symbol creation; 8-argument tail recursion; generator driven by for-in with recursion inside) x knob vector (initial value stack 16..8191 slots log-uniform, max value stack, call stack 64..2x default frames, pool 1-8, queue 256-4096, symbol-table presize) x up to 5 forced value-stack reallocations at PRNG-chosen calls (failpoint in callBytecodeFunction, at most 6 per run) x one schedule. Oracle: stdout and error equal the run at default sizes, pool 4, queue 256 under the non-preemptive schedule, unless the run reports a stack limit (counted, excluded by the property); no Go panic. Distinct: hash of (program, knob vector, schedule trace)",
+		Assumptions: append([]string{"the ELK_* environment variable parsing in init() is bypassed: package variables are set directly", "queue capacities below the enqueue bound are not drawn here (that is C16's known finding)"}, commonAssumptions...),
+		Real:        append([]string{"vm.growValueStack", "callBytecodeFunction / CallGeneratorNext / callBytecodePromise stack copies", "vm.ThreadPool sizing"}, realAll...),
+		Stub:        stubAll,
+	}
 }
